@@ -26,7 +26,7 @@ from ._h_A import (FactReach, Facts, branch_succ, loop_breaks, nodes_of_stmts, n
                    is_const, stmts_in, never_returns, inliner, expander, bind_call, call_arg,
                    real_loops, Owners, followed, returns_of, value_at, strip_wrappers, atom_of,
                    reaching_defs, built_list, values_at, need, opaque_parts, opaque_calls,
-                   same_or_opaque, opaque_tests, undissolved)
+                   same_or_opaque, opaque_tests, undissolved, is_frame_reset)
 
 EXPLANATION = (
   "Decides the structural legs of the out-of-order protocol that keeps a formula from ever being "
@@ -63,6 +63,16 @@ def check(run, repo, tier):
 
 
 # ------------------------------------------------------------------------------------------
+def work_item_fields(w):
+  d = w.repo.module("engine").assigns.get("WorkItem")
+  fields = None
+  if isinstance(d, ast.Call) and len(d.args) == 2 and isinstance(d.args[1], (ast.Tuple, ast.List)):
+    fields = [x.value for x in d.args[1].elts if isinstance(x, ast.Constant)]
+  if not fields or len(fields) != 3:
+    raise AnalysisError("engine.WorkItem is no longer a three-field namedtuple")
+  return fields
+
+
 def work_item(w, e):
   """{field: expr} of a WorkItem(...) construction (positional or keyword arguments), else None.
   The field names are read from the namedtuple definition."""
@@ -204,6 +214,66 @@ def _no_dirty_rows_atoms(p_node):
           "%s in %s" % (p_node, m): False}
 
 
+def _check_dispatch(run, w, R1, fn, p_node, p_rows, shortcuts):
+  """The dispatch of a dirty read in function fn (Engine._recompute, or _use_node when the body was
+  written in place): inside an update loop the non-evaluating visit of (node, rows), outside a loop
+  of its own seeded with them. `shortcuts` ({atom: truth}) are the only other ways to the exit."""
+  fex = expander(fn)
+  cfg = fn.cfg
+  flag = "self._in_update_loop"
+  steps = [(n, c) for (n, c, nm) in fn.calls() if nm == "self._recompute_step"]
+  loops = [(n, c) for (n, c, nm) in fn.calls() if nm == "self._update_loop"]
+  if not steps or not loops:
+    raise AnalysisError("%s: _recompute_step / _update_loop calls not found" % fn.qualname)
+  stf = w.repo.func(STEP)
+  good_steps = set()
+  for (n, c) in steps:
+    m = bind_call(c, stf) or {}
+    ae, rr, nd = m.get("allow_evaluation"), m.get("require_rows"), m.get(stf.params()[1])
+    need(m, "%s: cannot match the arguments of `%s`" % (fn.qualname, short(c)))
+    ae_v = fex.expand(ae) if ae is not None else None
+    need(isinstance(ae_v, ast.Constant), "%s: allow_evaluation is not a constant in `%s`"
+         % (fn.qualname, short(c)))
+    ok = is_const(ae_v, False) and same_or_opaque(w, fn, nd, p_node, "node of the nested visit") \
+        and same_or_opaque(w, fn, rr, p_rows, "rows of the nested visit")
+    if ok:
+      good_steps.add(n.id)
+    run.ob(R1, fn.qualname, "self._recompute_step(node, allow_evaluation=False, require_rows=row_ids)",
+           "a nested visit never evaluates: allow_evaluation=False, with "
+           "the caller's node and required rows", ok, fi=fn.fi, node=c)
+  def leaks(seen):
+    """arrivals at the exit that are not one of the accepted shortcuts"""
+    return [f for f in seen.get(cfg.exit.id, [])
+            if not any(f.get(k) is v for k, v in shortcuts.items())]
+  fr = Facts(cfg, {flag} | set(shortcuts), ex=fex)
+  seen = fr.run([(cfg.entry.id, {flag: True})], stop=good_steps)
+  ok = not leaks(seen) and not ({n.id for (n, c) in loops} & set(seen))
+  if not ok and good_steps:
+    ot = opaque_tests(w, fn)
+    need(not ot, "%s: a test that cannot be followed (`%s`) decides which visit is made"
+         % (fn.qualname, short(ot[0].stmt.test) if ot else ""))
+  run.ob(R1, fn.qualname, "if self._in_update_loop: self._recompute_step(..., allow_evaluation=False)",
+         "inside an update loop every nested read goes through the non-evaluating visit (and never "
+         "starts a nested loop)", ok, fi=fn.fi,
+         witness=None if ok else "a path with _in_update_loop true avoids the non-evaluating visit")
+  seen = fr.run([(cfg.entry.id, {flag: False})], stop={n.id for (n, c) in loops})
+  ok = not leaks(seen) and not ({n.id for (n, c) in steps} & set(seen))
+  run.ob(R1, fn.qualname, "else: self._update_loop([WorkItem(node, row_ids, [])], ...)",
+         "outside an update loop a dirty read starts a loop of its own", ok, fi=fn.fi)
+  ulf = w.repo.func(LOOP)
+  for (n, c) in loops:
+    a = call_arg(c, ulf, ulf.params()[1])
+    a = fex.expand(a) if a is not None else None
+    wi = work_item(w, fex.expand(a.elts[0])) if isinstance(a, (ast.List, ast.Tuple)) and \
+        len(a.elts) == 1 else None
+    need(wi is not None, "%s: cannot follow the work items the on-demand loop is seeded "
+         "with (`%s`)" % (fn.qualname, short(a if a is not None else c)))
+    ok = same_or_opaque(w, fn, wi["node"], p_node, "node of the seeded work item") and \
+        same_or_opaque(w, fn, wi["row_ids"], p_rows, "rows of the seeded work item")
+    run.ob(R1, fn.qualname, "self._update_loop([WorkItem(node, row_ids, [])], ...)", "the on-demand "
+           "loop is seeded with the node and rows being read", ok, fi=fn.fi, node=c)
+
+
 def r1_funnel(run, w):
   R1 = run.rule("C06-R1", "dirty reads funnel into _recompute; inside an update loop it visits the "
                 "node with allow_evaluation=False; that visit scans every required row and raises "
@@ -215,90 +285,57 @@ def r1_funnel(run, w):
   uex = expander(un)
   ps = un.fi.params()
   cfg = un.cfg
+  need(len(ps) >= 4, "_use_node: signature changed")
   rec = [(n, c) for (n, c, nm) in un.calls() if nm == "self._recompute"]
-  if len(rec) != 1:
-    raise AnalysisError("_use_node: expected exactly one self._recompute call")
-  rn, rc = rec[0]
-  rf = w.repo.func("engine.Engine._recompute")
-  m = bind_call(rc, rf) or {}
-  rps = rf.params()
-  need(len(rps) == 3 and len(ps) >= 4 and m, "_use_node / _recompute: signature changed")
-  ok_args = same_or_opaque(w, un, m.get(rps[1]), ps[1], "node handed to _recompute") and \
-      same_or_opaque(w, un, m.get(rps[2]), ps[3], "rows handed to _recompute")
-  run.ob(R1, un.qualname, "self._recompute(node, row_ids)", "the node and rows being read are the "
-         "ones brought up to date", ok_args, fi=un.fi, node=rc)
+  direct = [(n, c) for (n, c, nm) in un.calls()
+            if nm in ("self._recompute_step", "self._update_loop")]
   shortcuts = dict(_no_dirty_rows_atoms(ps[1]))
   shortcuts["self._peeking"] = True
-  fr = Facts(cfg, set(shortcuts), ex=uex)
-  seen = fr.run([(cfg.entry.id, {})], stop={rn.id})
-  bad = [f for f in seen.get(cfg.exit.id, [])
-         if not any(f.get(k) is v for k, v in shortcuts.items())]
-  if bad:
-    ot = opaque_tests(w, un)
-    need(not ot, "_use_node: a path ends without recomputing under a test that cannot be followed "
-         "(`%s`)" % (short(ot[0].stmt.test) if ot else ""))
-  run.ob(R1, un.qualname, "every path ends in a shortcut return or self._recompute(...)",
-         "a read skips recomputation only while peeking or when the node has no dirty rows",
-         not bad, fi=un.fi,
-         witness=None if not bad else "a path reaches the end of _use_node without recomputing, "
-         "knowing only %s" % (bad[0] or "nothing"))
+  in_place = False
+  if len(rec) == 1 and not direct:
+    rn, rc = rec[0]
+    rf = w.repo.func("engine.Engine._recompute")
+    m = bind_call(rc, rf) or {}
+    rps = rf.params()
+    need(len(rps) == 3 and m, "_use_node / _recompute: signature changed")
+    ok_args = same_or_opaque(w, un, m.get(rps[1]), ps[1], "node handed to _recompute") and \
+        same_or_opaque(w, un, m.get(rps[2]), ps[3], "rows handed to _recompute")
+    run.ob(R1, un.qualname, "self._recompute(node, row_ids)", "the node and rows being read are the "
+           "ones brought up to date", ok_args, fi=un.fi, node=rc)
+    fr = Facts(cfg, set(shortcuts), ex=uex)
+    seen = fr.run([(cfg.entry.id, {})], stop={rn.id})
+    bad = [f for f in seen.get(cfg.exit.id, [])
+           if not any(f.get(k) is v for k, v in shortcuts.items())]
+    if bad:
+      ot = opaque_tests(w, un)
+      need(not ot, "_use_node: a path ends without recomputing under a test that cannot be followed "
+           "(`%s`)" % (short(ot[0].stmt.test) if ot else ""))
+    run.ob(R1, un.qualname, "every path ends in a shortcut return or self._recompute(...)",
+           "a read skips recomputation only while peeking or when the node has no dirty rows",
+           not bad, fi=un.fi,
+           witness=None if not bad else "a path reaches the end of _use_node without recomputing, "
+           "knowing only %s" % (bad[0] or "nothing"))
+  elif direct and not rec:
+    # the body of _recompute written in place: the same dispatch is decided here, the shortcuts
+    # being the only other ways out
+    in_place = True
+    _check_dispatch(run, w, R1, un, ps[1], ps[3], shortcuts)
+  else:
+    raise AnalysisError("_use_node: expected exactly one self._recompute call (or its body in "
+                        "place)")
 
   # (b) _recompute: in an update loop -> _recompute_step(allow_evaluation=False); else own loop
-  fn = inl.fn("engine.Engine._recompute")
-  fex = expander(fn)
-  ps = fn.fi.params()
-  cfg = fn.cfg
-  flag = "self._in_update_loop"
-  steps = [(n, c) for (n, c, nm) in fn.calls() if nm == "self._recompute_step"]
-  loops = [(n, c) for (n, c, nm) in fn.calls() if nm == "self._update_loop"]
-  if not steps or not loops:
-    raise AnalysisError("_recompute: _recompute_step / _update_loop calls not found")
+  if w.repo.has_func("engine.Engine._recompute"):
+    fn = inl.fn("engine.Engine._recompute")
+    _check_dispatch(run, w, R1, fn, fn.fi.params()[1], fn.fi.params()[2], {})
+  elif not in_place:
+    raise AnalysisError("anchor function vanished: engine.Engine._recompute")
   stf = w.repo.func(STEP)
-  good_steps = set()
-  for (n, c) in steps:
-    m = bind_call(c, stf) or {}
-    ae, rr, nd = m.get("allow_evaluation"), m.get("require_rows"), m.get(stf.params()[1])
-    need(m, "_recompute: cannot match the arguments of `%s`" % short(c))
-    ae_v = fex.expand(ae) if ae is not None else None
-    need(isinstance(ae_v, ast.Constant), "_recompute: allow_evaluation is not a constant in `%s`"
-         % short(c))
-    ok = is_const(ae_v, False) and same_or_opaque(w, fn, nd, ps[1], "node of the nested visit") \
-        and same_or_opaque(w, fn, rr, ps[2], "rows of the nested visit")
-    if ok:
-      good_steps.add(n.id)
-    run.ob(R1, fn.qualname, "self._recompute_step(node, allow_evaluation=False, require_rows=row_ids)",
-           "a nested visit never evaluates: allow_evaluation=False, with "
-           "the caller's node and required rows", ok, fi=fn.fi, node=c)
-  fr = Facts(cfg, {flag}, ex=fex)
-  seen = fr.run([(cfg.entry.id, {flag: True})], stop=good_steps)
-  ok = cfg.exit.id not in seen and not ({n.id for (n, c) in loops} & set(seen))
-  if not ok and good_steps:
-    ot = opaque_tests(w, fn)
-    need(not ot, "_recompute: a test that cannot be followed (`%s`) decides which visit is made"
-         % (short(ot[0].stmt.test) if ot else ""))
-  run.ob(R1, fn.qualname, "if self._in_update_loop: self._recompute_step(..., allow_evaluation=False)",
-         "inside an update loop every nested read goes through the non-evaluating visit (and never "
-         "starts a nested loop)", ok, fi=fn.fi,
-         witness=None if ok else "a path with _in_update_loop true avoids the non-evaluating visit")
-  seen = fr.run([(cfg.entry.id, {flag: False})], stop={n.id for (n, c) in loops})
-  ok = cfg.exit.id not in seen and not ({n.id for (n, c) in steps} & set(seen))
-  run.ob(R1, fn.qualname, "else: self._update_loop([WorkItem(node, row_ids, [])], ...)",
-         "outside an update loop a dirty read starts a loop of its own", ok, fi=fn.fi)
-  ulf = w.repo.func(LOOP)
-  for (n, c) in loops:
-    a = call_arg(c, ulf, ulf.params()[1])
-    a = fex.expand(a) if a is not None else None
-    wi = work_item(w, fex.expand(a.elts[0])) if isinstance(a, (ast.List, ast.Tuple)) and \
-        len(a.elts) == 1 else None
-    need(wi is not None, "_recompute: cannot follow the work items the on-demand loop is seeded "
-         "with (`%s`)" % short(a if a is not None else c))
-    ok = same_or_opaque(w, fn, wi["node"], ps[1], "node of the seeded work item") and \
-        same_or_opaque(w, fn, wi["row_ids"], ps[2], "rows of the seeded work item")
-    run.ob(R1, fn.qualname, "self._update_loop([WorkItem(node, row_ids, [])], ...)", "the on-demand "
-           "loop is seeded with the node and rows being read", ok, fi=fn.fi, node=c)
 
   # (c) who may call _recompute_step, and with what
   named = {LOOP, "engine.Engine._recompute"}
+  if in_place:
+    named.add("engine.Engine._use_node")      # decided by _check_dispatch above
   for fi in w.repo.all_functions():
     for c in calls_in(fi.node.body):
       if isinstance(c.func, ast.Attribute) and c.func.attr == "_recompute_step":
@@ -603,6 +640,8 @@ def r2_one_cell(run, w):
         ok = os_ <= set(owners)
         if ok:
           followed(inl, fi, os_)
+        elif isinstance(x.ctx, ast.Store) and is_frame_reset(w, fi, x):
+          ok = True     # the frame reset (_pre_update) written in place at the start of a frame
         run.ob(R2, fi.qualname, "write of _cell_required_error", "the pending-order-error channel "
                "is written only by the protocol's own functions", ok, fi=fi,
                node=x, nontrivial=False)
@@ -643,9 +682,28 @@ class LoopRoles(object):
       # item = work_items.pop(); node, row_ids, locks = item
       un = [s for s in stmts_in(fn.node.body, ast.Assign) if isinstance(s.value, ast.Name) and
             s.value.id == tgt.id and len(s.targets) == 1 and isinstance(s.targets[0], ast.Tuple)]
-      if len(un) != 1:
-        raise AnalysisError("%s: the popped work item is not unpacked into three locals" % LOOP)
-      tgt = un[0].targets[0]
+      if len(un) == 1:
+        tgt = un[0].targets[0]
+      else:
+        # node = item[0] / item.node; row_ids = item[1] / item.row_ids; locks = item[2] / item.locks
+        fields = work_item_fields(w)
+        comp = {}
+        for s_ in stmts_in(fn.node.body, ast.Assign):
+          v = s_.value
+          k = None
+          if isinstance(v, ast.Subscript) and isinstance(v.value, ast.Name) and \
+              v.value.id == tgt.id and isinstance(v.slice, ast.Constant) and \
+              v.slice.value in (0, 1, 2):
+            k = v.slice.value
+          elif isinstance(v, ast.Attribute) and isinstance(v.value, ast.Name) and \
+              v.value.id == tgt.id and v.attr in fields:
+            k = fields.index(v.attr)
+          if k is not None and len(s_.targets) == 1 and isinstance(s_.targets[0], ast.Name) and \
+              k not in comp:
+            comp[k] = s_.targets[0]
+        if sorted(comp) != [0, 1, 2]:
+          raise AnalysisError("%s: the popped work item is not unpacked into three locals" % LOOP)
+        tgt = ast.Tuple(elts=[comp[0], comp[1], comp[2]], ctx=ast.Store())
     if not (isinstance(tgt, ast.Tuple) and len(tgt.elts) == 3 and
             all(isinstance(e, ast.Name) for e in tgt.elts)):
       raise AnalysisError("%s: `node, row_ids, locks = work_items.pop()` not found" % LOOP)
